@@ -16,7 +16,7 @@ PROPERTY = {
         'recording targets stand for arbitrary callables; eval code reports through a recording eval symbol',
         'metadata codec stub for !unsafe markers on already tagged nodes (native replays use the real pickle codec)',
     ],
-    'bounds': {'scenarios': '22 merge histories (one through an !include on the virtual file system) (evaluated through Config and through the low-level EvalContext route) of 1..3 stages: call/bind/eval/f-string/import defined, argument override by mapping / list, placeholder filled later, target override by string / by another function node, plain mapping replaced by a call, data referenced by !xref / by evaluated code supplied before or after, overridden data',
+    'bounds': {'scenarios': '25 merge histories (one through an !include on the virtual file system) (evaluated through Config and through the low-level EvalContext route) of 1..3 stages: call/bind/eval/f-string/import defined, argument override by mapping / list, placeholder filled later, target override by string / by another function node, plain mapping replaced by a call, data referenced by !xref / by evaluated code supplied before or after, overridden data',
                'flags': 'safe flag of each source symbolic; one !unsafe marker (symbolic presence) on the node / its wrapper / an argument / the referenced data of a selected stage'},
     'outside': ['!rec nodes, unsafe includes (C06 covers include safety inheritance)', 'more than 3 stages'],
     'per_split_timeout': {'quick': 600, 'thorough': 1800},
@@ -98,10 +98,19 @@ def scenario(k, marks):
         symlib.vfs_put('/proj/inc.yaml', 'c: !call:%s {a: 1}\nv: 2\n' % F)
         symlib.vfs_put('/proj/main.yaml', 'w: ' + (m[0] + ' ' if m[0] else '') + '{i: !include inc.yaml, z: 0}\n')
         return ['/proj/main.yaml', 'w: ' + plain(1, '{i: {c: {b: 3}}}')], [0, 1], 'f'
+    if k == 22:
+        # a nested dynamic argument evaluated first, then an unsafe plain argument of the same call
+        return ['x: !call:%s {a: !call:%s {k: 1}, b: %s}' % (F, G, plain(0, '7'))], [0], 'f'
+    if k == 23:
+        # ... the later argument reaches the unsafe value through a reference, the earlier one is evaluated code
+        return ['d: ' + plain(0, '7'), 'x: ' + dyn(1, 'call', F, 'a: !eval "1 + 1", b: !xref d')], [0, 1], 'f'
+    if k == 24:
+        # evaluated code names an entry that was evaluated EARLIER and holds an unsafe child
+        return ['d: {v: ' + plain(0, '7') + ', w: 1}', 'x: ' + (m[1] and ('!eval:' + m[1][len('!metadata:'):]) or '!eval') + ' "rec(d)"'], [0, 1], 'ident'
     raise ValueError(k)
 
 
-NSCEN = 22
+NSCEN = 25
 
 
 def c07_history(split, s0, s1, s2, u, mark, low):
@@ -152,7 +161,7 @@ def c07_history(split, s0, s1, s2, u, mark, low):
         note(error='unexpected ' + repr(e)[:300])
         return False
     logged = [e_[0] for e_ in targets.LOG]
-    if observer in ('f', 'g', 'ident') and logged:
+    if observer in ('f', 'g', 'ident') and observer in logged:
         ran = True
     note(log=repr(targets.LOG), ran=ran)
     all_safe = True
@@ -173,7 +182,7 @@ def c07_history(split, s0, s1, s2, u, mark, low):
             return False        # VIOLATION: executed although a contributing stage is unsafe
         if err is not None:
             return True
-        if observer in ('f', 'g') and logged != [observer]:
+        if observer in ('f', 'g') and logged.count(observer) != 1:
             return False
         return True
     wit('refused')
